@@ -1008,4 +1008,220 @@ theorem replaceLast_empty {s : St D} {b : String} {m : Meta} {hint : Option Int}
     | cons a l => rw [hl] at hes; cases hes
   simp only [this, List.isEmpty_nil, if_true]
 
+/-! ### insertMany -/
+
+/-- the loop body of `insert_many` -/
+def imStep (b : String) (acc : Except Err (St D)) (e : Ev D) : Except Err (St D) :=
+  match acc with
+  | .error x => .error x
+  | .ok s => (insertOne s b e).map (·.1)
+
+theorem insertMany_eq (s : St D) (b : String) (es : List (Ev D)) :
+    insertMany s b es = match keyOf s b with
+      | none => if es.isEmpty then .ok s else .error .keyError
+      | some _ => (es.filter (fun e => e.id.isNone)).foldl (imStep b)
+          ((es.filter (fun e => e.id.isSome)).foldl (imStep b) (.ok s)) := rfl
+
+theorem foldl_imStep_error (b : String) (x : Err) (l : List (Ev D)) :
+    l.foldl (imStep b) (.error x) = .error x := by
+  induction l with
+  | nil => rfl
+  | cons a t ih => exact ih
+
+/-- the upsert phase: succeeds, keeps the tables' shape, and is a fold of `Spec.replaceId` -/
+theorem upserts_fold {b : String} {k : Int} (l : List (Ev D)) (hl : ∀ e ∈ l, e.id.isSome)
+    (s : St D) (h : Inv s) (hk : keyOf s b = some k) :
+    ∃ s', l.foldl (imStep b) (.ok s) = .ok s' ∧ Inv s' ∧ keyOf s' b = some k ∧
+      s'.events.map (·.id) = s.events.map (·.id) ∧
+      view s' = l.foldl (fun v e => Spec.replaceId v b (e.id.getD 0) e) (view s) := by
+  induction l generalizing s with
+  | nil => exact ⟨s, rfl, h, hk, rfl, rfl⟩
+  | cons e t ih =>
+    obtain ⟨i, hi⟩ := Option.isSome_iff_exists.mp (hl e (List.mem_cons_self ..))
+    obtain ⟨r, _, _, _, _, hv⟩ := keyOf_some h hk
+    obtain ⟨s1, j, hs1⟩ := insertOne_total (e := e) h (by rw [hv]; rfl)
+    have hI1 := insertOne_inv h hs1
+    obtain ⟨_, _, hview⟩ := insertOne_upsert_view h hi hs1
+    obtain ⟨k1, hk1, _, hs1eq⟩ := insertOne_upsert_ok hi hs1
+    have hk1' : keyOf s1 b = some k := by rw [hs1eq]; exact hk
+    have hids : s1.events.map (·.id) = s.events.map (·.id) := by
+      rw [hs1eq]
+      show (s.events.map _).map (fun r : ERow D => r.id) = _
+      rw [List.map_map]
+      apply List.map_congr_left
+      intro row _
+      show (if _ then _ else _ : ERow D).id = _
+      split <;> rfl
+    obtain ⟨s', hf, hI', hk', hids', hview'⟩ :=
+      ih (fun x hx => hl x (List.mem_cons_of_mem _ hx)) s1 hI1 hk1'
+    refine ⟨s', ?_, hI', hk', hids'.trans hids, ?_⟩
+    · rw [List.foldl_cons]
+      show t.foldl (imStep b) ((insertOne s b e).map (·.1)) = _
+      rw [hs1]; exact hf
+    · rw [List.foldl_cons, hi, hview']
+      rw [hview]; rfl
+
+/-- the insert phase: succeeds, the new ids are distinct and above every id of the table -/
+theorem inserts_fold {b : String} {k : Int} (l : List (Ev D)) (hl : ∀ e ∈ l, e.id = none)
+    (s : St D) (h : Inv s) (hk : keyOf s b = some k) :
+    ∃ s' ids, l.foldl (imStep b) (.ok s) = .ok s' ∧ Inv s' ∧ keyOf s' b = some k ∧
+      ids.length = l.length ∧ ids.Nodup ∧ (∀ i ∈ ids, maxId s.events < i) ∧
+      view s' = (l.zip ids).foldl (fun v p => Spec.insert v b p.2 p.1) (view s) := by
+  induction l generalizing s with
+  | nil => exact ⟨s, [], rfl, h, hk, rfl, List.nodup_nil, (fun i hi => by cases hi), rfl⟩
+  | cons e t ih =>
+    have he := hl e (List.mem_cons_self ..)
+    obtain ⟨r, _, _, _, _, hv⟩ := keyOf_some h hk
+    obtain ⟨s1, j, hs1⟩ := insertOne_total (e := e) h (by rw [hv]; rfl)
+    have hI1 := insertOne_inv h hs1
+    obtain ⟨i, hji, _, hview, _⟩ := insertOne_view h he hs1
+    obtain ⟨k1, hk1, hj, hs1eq⟩ := insertOne_new_ok he hs1
+    have hi : i = maxId s.events + 1 := by rw [hj] at hji; injection hji with hji; exact hji.symm
+    have hk1' : keyOf s1 b = some k := by rw [hs1eq]; exact hk
+    have hmax : i ≤ maxId s1.events := by
+      rw [hs1eq, hi]
+      exact id_le_maxId (r := ⟨maxId s.events + 1, k1, e.ts, e.dur, e.data⟩)
+        (List.mem_append_right _ (List.mem_singleton.mpr rfl))
+    obtain ⟨s', ids, hf, hI', hk', hlen, hnd, hfresh, hview'⟩ :=
+      ih (fun x hx => hl x (List.mem_cons_of_mem _ hx)) s1 hI1 hk1'
+    refine ⟨s', i :: ids, ?_, hI', hk', by simp [hlen], ?_, ?_, ?_⟩
+    · rw [List.foldl_cons]
+      show t.foldl (imStep b) ((insertOne s b e).map (·.1)) = _
+      rw [hs1]; exact hf
+    · rw [List.nodup_cons]
+      refine ⟨fun hmem => ?_, hnd⟩
+      have := hfresh i hmem
+      omega
+    · intro x hx
+      rcases List.mem_cons.mp hx with rfl | hx'
+      · omega
+      · have := hfresh x hx'; omega
+    · rw [List.zip_cons_cons, List.foldl_cons, hview', hview]
+
+/-- both phases of `insert_many` on an existing bucket -/
+theorem insertMany_run {s : St D} {b : String} (es : List (Ev D)) (h : Inv s)
+    (hv : (view s b).isSome) :
+    ∃ s' ids, insertMany s b es = .ok s' ∧ Inv s' ∧
+      ids.length = (es.filter (fun e => e.id.isNone)).length ∧ ids.Nodup ∧
+      (∀ i ∈ ids, ∀ b', i ∉ Spec.ids (view s) b') ∧
+      view s' = ((es.filter (fun e => e.id.isNone)).zip ids).foldl (fun v p => Spec.insert v b p.2 p.1)
+        ((es.filter (fun e => e.id.isSome)).foldl (fun v e => Spec.replaceId v b (e.id.getD 0) e) (view s)) := by
+  obtain ⟨k, hk⟩ := view_isSome_keyOf h hv
+  obtain ⟨s1, hf1, hI1, hk1, hids1, hview1⟩ :=
+    upserts_fold (b := b) (es.filter (fun e => e.id.isSome))
+      (fun e he => (List.mem_filter.mp he).2) s h hk
+  obtain ⟨s2, ids, hf2, hI2, _, hlen, hnd, hfresh, hview2⟩ :=
+    inserts_fold (b := b) (es.filter (fun e => e.id.isNone))
+      (fun e he => by simpa using (List.mem_filter.mp he).2) s1 hI1 hk1
+  refine ⟨s2, ids, ?_, hI2, hlen, hnd, ?_, ?_⟩
+  · rw [insertMany_eq, hk]
+    show List.foldl (imStep b) (List.foldl (imStep b) (.ok s) _) _ = _
+    rw [hf1, hf2]
+  · intro i hi b' hmem
+    have h1 := hfresh i hi
+    rw [maxId_congr hids1] at h1
+    have h2 := ids_le_maxId s b' i hmem
+    omega
+  · rw [hview2, hview1]
+
+theorem insertMany_view {s s' : St D} {b : String} {es : List (Ev D)} (h : Inv s)
+    (hv : (view s b).isSome) (hc : insertMany s b es = .ok s') :
+    ∃ ids : List Int, ids.length = (es.filter (fun e => e.id.isNone)).length ∧ ids.Nodup ∧
+      (∀ i ∈ ids, ∀ b', i ∉ Spec.ids (view s) b') ∧
+      view s' = ((es.filter (fun e => e.id.isNone)).zip ids).foldl (fun v p => Spec.insert v b p.2 p.1)
+        ((es.filter (fun e => e.id.isSome)).foldl (fun v e => Spec.replaceId v b (e.id.getD 0) e) (view s)) := by
+  obtain ⟨s2, ids, hrun, _, hlen, hnd, hfresh, hview⟩ := insertMany_run es h hv
+  rw [hrun] at hc
+  injection hc with hc
+  subst hc
+  exact ⟨ids, hlen, hnd, hfresh, hview⟩
+
+/-- on a missing bucket `insert_many` is a no-op for the empty list and a KeyError otherwise -/
+theorem insertMany_missing {s : St D} {b : String} {es : List (Ev D)} (h : Inv s)
+    (hv : view s b = none) :
+    insertMany s b es = if es.isEmpty then .ok s else .error .keyError := by
+  rw [insertMany_eq, (keyOf_none_iff h b).mpr hv]
+
+theorem insertMany_inv {s s' : St D} {b : String} {es : List (Ev D)} (h : Inv s)
+    (hc : insertMany s b es = .ok s') : Inv s' := by
+  cases hv : view s b with
+  | none =>
+    rw [insertMany_missing h hv] at hc
+    split at hc
+    · injection hc with hc; exact hc ▸ h
+    · cases hc
+  | some p =>
+    obtain ⟨s2, ids, hrun, hI2, _⟩ := insertMany_run es h (show (view s b).isSome by rw [hv]; rfl)
+    rw [hrun] at hc
+    injection hc with hc
+    exact hc ▸ hI2
+
+/-! ### the hypotheses are satisfiable: a concrete state with two buckets, three events (two of
+them in bucket "a" with the same instant; ids interleaved between the buckets) -/
+namespace Example
+
+def m0 : Meta := ⟨none, "t", "c", "h", "2020", "{}"⟩
+def s0 : St Nat :=
+  { buckets := [⟨1, "a", m0⟩, ⟨2, "b", m0⟩]
+    events := [⟨1, 1, 10, 5, 7⟩, ⟨2, 2, 10, 0, 8⟩, ⟨3, 1, 10, 1, 9⟩]
+    keys := [("a", 1), ("b", 2)] }
+def e0 : Ev Nat := { ts := 20, dur := 1, data := 0 }
+
+theorem inv0 : Inv s0 := ⟨by decide, by decide, by decide, rfl, by decide⟩
+
+theorem view_a : view s0 "a" = some (m0, [⟨some 1, 10, 5, 7⟩, ⟨some 3, 10, 1, 9⟩]) := rfl
+
+example : ∃ s', createBucket s0 "c" m0 = .ok s' ∧ view s' = Spec.create (view s0) "c" m0 :=
+  ⟨_, rfl, (createBucket_view inv0 rfl).2⟩
+example : createBucket s0 "a" m0 = .error .integrity := createBucket_exists inv0 rfl
+example : ∃ s', updateBucket s0 "a" { type := some "u" } = .ok s' ∧
+    view s' = Spec.update (view s0) "a" (Upd.apply { type := some "u" }) :=
+  ⟨_, rfl, (updateBucket_view inv0 rfl).2⟩
+example : updateBucket s0 "zz" {} = .error .valueError := updateBucket_missing inv0 rfl
+example : ∃ s', deleteBucket s0 "a" = .ok s' ∧ view s' = Spec.deleteBucket (view s0) "a" :=
+  ⟨_, rfl, (deleteBucket_view inv0 rfl).2⟩
+example : deleteBucket s0 "zz" = .error .valueError := deleteBucket_missing inv0 rfl
+example : getMetadata s0 "a" = .ok m0 := getMetadata_eq inv0
+example : ("b", m0) ∈ bucketsOf s0 := (bucketsOf_eq inv0 "b" m0).mpr ⟨_, rfl⟩
+example : ∃ s', insertOne s0 "a" e0 = .ok (s', some 4) ∧ view s' = Spec.insert (view s0) "a" 4 e0 := by
+  refine ⟨_, rfl, ?_⟩
+  obtain ⟨i, hi, _, hv, _⟩ := insertOne_view inv0 (e := e0) (b := "a") rfl rfl
+  injection hi with hi
+  rw [← hi] at hv; exact hv
+example : insertOne s0 "zz" e0 = .error .keyError := insertOne_missing inv0 rfl
+/-- upsert with an id that lives in the *other* bucket: a no-op on both, as the list model says -/
+example : ∃ s', insertOne s0 "a" { e0 with id := some 2 } = .ok (s', some 2) ∧
+    view s' = Spec.replaceId (view s0) "a" 2 { e0 with id := some 2 } :=
+  ⟨_, rfl, (insertOne_upsert_view inv0 rfl rfl).2.2⟩
+example : ∃ s', replace s0 "a" 3 e0 = .ok s' ∧ view s' = Spec.replaceId (view s0) "a" 3 e0 :=
+  ⟨_, rfl, (replace_view inv0 rfl).2⟩
+example : replace s0 "a" 2 e0 = .error .attributeError :=
+  (replace_notLive inv0 rfl (by decide)).1
+example : ∃ s' n, delete s0 "a" 3 = .ok (s', n) ∧ view s' = Spec.delete (view s0) "a" 3 ∧ n = 1 := by
+  refine ⟨_, _, rfl, (delete_view inv0 rfl).1, rfl⟩
+/-- deleting an id of another bucket removes nothing -/
+example : ∃ s' n, delete s0 "a" 2 = .ok (s', n) ∧ view s' = view s0 ∧ n = 0 := by
+  refine ⟨_, _, rfl, ?_, rfl⟩
+  rw [(delete_view inv0 (b := "a") (i := 2) rfl).1]
+  funext b'; by_cases hb : b' = "a"
+  · subst hb; rfl
+  · exact Spec.frame_delete hb
+/-- two newest events (ids 1 and 3, same instant): both hints are accepted, `getEvents … 1` names id 1 -/
+example : getEvents s0 "a" 1 none none = .ok [⟨some 1, 10, 5, 7⟩] := rfl
+example : ∃ s', replaceLast s0 "a" (some 3) e0 = .ok (some (s', 3)) ∧
+    view s' = Spec.replaceId (view s0) "a" 3 e0 := by
+  refine ⟨_, rfl, ?_⟩
+  obtain ⟨_, _, _, _, hv⟩ := replaceLast_hint_view inv0 view_a (hint := some 3) (e := e0) rfl
+  exact hv
+example := replaceLast_view inv0 view_a (by decide)
+example : ∃ s', insertMany s0 "a" [e0, { e0 with id := some 3 }, { e0 with id := some 2 }, e0] = .ok s' :=
+  ⟨_, rfl⟩
+example := insertMany_view inv0 (b := "a")
+  (es := [e0, { e0 with id := some 3 }, { e0 with id := some 2 }, e0]) rfl rfl
+example : getEvent s0 "a" 3 = .ok (some ⟨some 3, 10, 1, 9⟩) := getEvent_eq inv0 view_a
+example : getEvent s0 "a" 2 = .ok none := getEvent_eq inv0 view_a
+example : ([⟨some 1, 10, 5, 7⟩, ⟨some 3, 10, 1, 9⟩] : List (Ev Nat)).filterMap (·.id) |>.Nodup :=
+  (ids_nodup inv0 view_a).1
+
+end Example
 end Aw.Store.Peewee
